@@ -3,6 +3,7 @@ package main
 // Calls: contracts at call sites, inlining, intrinsics, havoc.
 
 import (
+	"os"
 	"sort"
 	"fmt"
 	"go/types"
@@ -188,6 +189,9 @@ func (x *Exec) callValue(fr *Frame, st *State, c *ssa.CallCommon, fval Value, ar
 	con := x.CS.Funcs[key]
 	if con == nil && fn.Origin() != nil {
 		con = x.CS.Funcs[funcKey(fn.Origin())]
+	}
+	if os.Getenv("GOVC_DEBUG_CALL") != "" && strings.Contains(key, os.Getenv("GOVC_DEBUG_CALL")) {
+		fmt.Fprintf(os.Stderr, "CALL key=%q con=%v origin=%v\n", key, con != nil, fn.Origin() != nil)
 	}
 	isRootRecursion := fn == x.root
 	if con != nil && !con.Inline && (fn != x.root || isRootRecursion) {
@@ -415,6 +419,9 @@ type calleeDesc struct {
 
 func (x *Exec) descOfFunc(fn *ssa.Function, con *FuncContract) *calleeDesc {
 	d := &calleeDesc{key: funcKey(fn), name: fn.Name(), results: fn.Signature.Results(), pkg: fn.Pkg}
+	if d.pkg == nil && fn.Origin() != nil {
+		d.pkg = fn.Origin().Pkg // instantiation of a generic: its contract lives in the generic's package
+	}
 	if fn.Params == nil && (fn.Signature.Recv() != nil || fn.Signature.Params().Len() > 0) {
 		// external function (no body): parameters come from the signature
 		sig := fn.Signature
